@@ -391,6 +391,10 @@ class World:
         evs = [("Q", ci, ri) for ci in (0, 1, 2) for ri in (0, 1)] + [("SW",)]
         if not self.wrap:
             evs.append(("SP",))
+            if self.pv == 0:
+                evs.append(("SPA",))     # grid.points *= 0.8; grid.points += 0.05 (augmented assignment through the setter)
+        if self.wv == 0:
+            evs.append(("SWA",))
         if self.last is not None and not self.edited:
             evs.append(("EL",))
         return evs
@@ -431,7 +435,16 @@ class World:
                 if not (np.array_equal(g.points, self.P[self.pv]) and np.array_equal(g.weights, self.W[self.wv])):
                     self._bad("EL:parent-changed", "editing a local grid in place changed the parent grid")
                 return ("EL",)
-            if ev[0] == "SW":
+            if ev[0] == "SPA":
+                g.points *= 0.8
+                g.points += 0.05
+                self.pv = 1
+                self.P[1] = np.array(g.points, dtype=float) if np.allclose(g.points, self.P[1], rtol=1e-14, atol=1e-15) else self.P[1]
+            elif ev[0] == "SWA":
+                g.weights *= 1.0
+                g.weights = g.weights[::-1] * 2.0 + 0.1
+                self.wv = 1
+            elif ev[0] == "SW":
                 self.wv = 1 - self.wv
                 g.weights = self.W[self.wv].copy()
             else:
